@@ -623,14 +623,23 @@ Linear_Expression_Impl<Row>
           i = row.reset(i);
           continue;
         }
+        // Note: `y.row' may be a dense row, i.e., `*j' may be zero:
+        // zeroes must not be stored in `row'.
         if (i.index() > j.index()) {
-          i = row.insert(i, j.index(), *j);
-          (*i) *= c2;
-          ++i;
+          if (*j != 0) {
+            i = row.insert(i, j.index(), *j);
+            (*i) *= c2;
+            ++i;
+          }
           ++j;
           continue;
         }
         PPL_ASSERT(i.index() == j.index());
+        if (*j == 0) {
+          i = row.reset(i);
+          ++j;
+          continue;
+        }
         (*i) = (*j);
         (*i) *= c2;
         ++i;
@@ -640,9 +649,11 @@ Linear_Expression_Impl<Row>
         i = row.reset(i);
       }
       while (j != j_last) {
-        i = row.insert(i, j.index(), *j);
-        (*i) *= c2;
-        // No need to increment i here.
+        if (*j != 0) {
+          i = row.insert(i, j.index(), *j);
+          (*i) *= c2;
+          // No need to increment i here.
+        }
         ++j;
       }
     }
